@@ -1,4 +1,5 @@
 import LunarVerif.Proofs.C10
+import LunarVerif.Proofs.C10Plugin
 /-!
 # C10 — Policy-mode delayed queue releases waiters in order and never strands one
 
@@ -158,7 +159,42 @@ theorem burst_bounds (cfg : Cfg) (t0 p ttl k : Nat) (s : State) (es : List Ev)
   unfold observe at h2
   omega
 
+/-- Plugin level, requests under different queue keys never share a queue: a step of the queue of
+    `k'` leaves the queue of every other key `k` exactly as it was. -/
+theorem queues_not_shared (cfgOf : Nat → Cfg) (p p' : Plugin) (k k' : Nat) (l : Label) (hne : k' ≠ k)
+    (h : pstep cfgOf p (.on k' l) = some p') : lookupQ p'.queues k = lookupQ p.queues k := by
+  simp only [pstep] at h
+  split at h
+  · simp at h
+  · simp only [Option.some.injEq] at h
+    subst h
+    exact lookup_setQ_ne _ _ _ _ (Ne.symm hne)
+
+/-- Plugin level, per-key projection, ALL plugin schedules from a fresh plugin: the queue of key `k`
+    is `none` until `k`'s first own step, and from then on it is the state reached by a run of the
+    SINGLE-queue model (`run`, the object of every theorem above) with `k`'s own configuration, created
+    at the instant of that first step, over the clock ticks and `k`'s own steps only — whatever the
+    other keys (other remedy names, or the same name with another strategy) do in between. -/
+theorem plugin_projection (cfgOf : Nat → Cfg) (t0 : Nat) (ls : List PLabel) (p' : Plugin) (k : Nat)
+    (hr : prun cfgOf ⟨t0, []⟩ ls = some p') :
+    lookupQ p'.queues k = createdRun cfgOf k t0 ls :=
+  prun_absent cfgOf k ls ⟨t0, []⟩ p' rfl hr
+
 /-! ### Non-vacuity (and the former violation witnesses, now satisfying the property) -/
+
+/-- One remedy name, two strategies (keys 100 = quota 1, 200 = quota 2, 1000 ns windows, size 3),
+    interleaved: the quota-1 queue queues its second request, the quota-2 queue passes both, and
+    each is what the single-queue model gives on its own projection. -/
+example : let cfgOf : Nat → Cfg := fun k => ⟨k / 100, 1000, 3⟩
+    let ls : List PLabel := [.on 100 (.enq 0 50), .tick 1, .on 200 (.enq 0 50), .tick 1, .on 100 (.enq 0 50),
+                             .tick 1, .on 200 (.enq 0 50)]
+    ∃ p', prun cfgOf ⟨5500, []⟩ ls = some p' ∧
+      ((lookupQ p'.queues 100).map (fun s => s.reqs.map (·.ph))) = some [.passed, .gap] ∧
+      ((lookupQ p'.queues 200).map (fun s => s.reqs.map (·.ph))) = some [.passed, .passed] ∧
+      lookupQ p'.queues 100 = runS (cfgOf 100) (init (cfgOf 100) 5500) [.enq 0 50, .tick 1, .tick 1, .enq 0 50, .tick 1] := by
+  refine ⟨_, rfl, ?_⟩
+  decide
+
 
 /-- A burst of 8 on quota 2 / size 3: 2 pass, 3 wait, 3 are refused. -/
 example : ∃ s es, run ⟨2, 1000, 3⟩ (init ⟨2, 1000, 3⟩ 5500) (List.replicate 8 (.enq 0 2000)) = some (s, es) ∧
